@@ -1,6 +1,130 @@
-(* Properties/C04.v — placeholder while the harness is brought up; replaced below. *)
-From Coq Require Import List String Bool.
-From SV Require Import Common.Prelude Model.Json Model.Identity Proofs.Json.
-Theorem C04_dumps_perm_invariant : forall a b, jok a = true -> jeq a b -> dumps_sorted a = dumps_sorted b.
+(* Properties/C04.v — Configuration identities are pure functions of configuration meaning.
+   Statements only; generated/probed facts select the code's variant. *)
+From Coq Require Import List String Bool NArith Permutation.
+From SV Require Import Common.Prelude Model.Json Model.Expr Gen.SemanticIdGen Gen.IdentityGen Model.Identity
+  Proofs.NormAC Proofs.Json Proofs.Identity.
+Import ListNotations.
+Local Open Scope string_scope.
+
+(* ---- facts read from the source on this run (hard obligations: they hold on every variant) *)
+Lemma gen_translated : identity_translation_failed = false /\ translation_failed = false.
+Proof. split; reflexivity. Qed.
+Lemma gen_canon_fields :
+  canon_fields = ["role"; "processor_ref"; "params"; "ports"; "declaration_index"; "declaration_subindex"].
+Proof. reflexivity. Qed.
+Lemma gen_fields_nodup : nodupb (canon_fields ++ ["node_uuid"; "preprocessor_metadata"]) = true.
+Proof. reflexivity. Qed.
+Lemma gen_sweep_meta_keys :
+  sweep_meta_keys = ["type"; "version"; "element_ref"; "param_expressions"; "variables"; "mode"; "broadcast";
+                     "collection"; "dependencies"] /\
+  sweep_dep_keys = ["required_external_parameters"; "context_keys"].
+Proof. split; reflexivity. Qed.
+Lemma gen_prefixes : pipeline_id_prefix = "plid-" /\ node_sem_prefix = "semantiva:node-sem-v1:" /\
+  pipeline_sem_prefix = "semantiva:pipeline-sem-v1:" /\ ui_only_keys = ["preprocessor_view"] /\
+  node_sem_dropped_key = "expr".
+Proof. repeat split; reflexivity. Qed.
+
+(* ---- (1) sorted-key JSON text does not depend on the order of mapping members, at any depth *)
+Theorem C04_dumps_perm_invariant : forall a b, knd a = true -> jeq a b -> dumps_sorted a = dumps_sorted b.
 Proof. exact dumps_perm_invariant. Qed.
+
+(* ---- (2) all identities and the sorted required-key list are invariant under cosmetic rewrites
+   (member order of every mapping incl. sweep variables/parameters, AC-rearranged sweep expressions),
+   for every pair of hash functions *)
+Theorem C04_ids_invariant_full : context_keys_sorted = true ->
+  forall U5 H c c', cfg_wf false c = true -> cfg_equiv c c' -> spec_ids U5 H c = spec_ids U5 H c'.
+Proof. intros Hs U5 H. exact (ids_invariant U5 H false (or_introl Hs) gen_fields_nodup). Qed.
+
+(* unconditional, for sweeps with at most one from_context variable *)
+Theorem C04_ids_invariant_partial :
+  forall U5 H c c', cfg_wf true c = true -> cfg_equiv c c' -> spec_ids U5 H c = spec_ids U5 H c'.
+Proof. intros U5 H. exact (ids_invariant U5 H true (or_intror eq_refl) gen_fields_nodup). Qed.
+
+Definition idh (s : string) : string := s.     (* a collision-free "hash" *)
+Definition fvds : procinfo :=
+  {| pi_fqcn := "semantiva.examples.test_utils.FloatValueDataSource"; pi_kind := KSource;
+     pi_required := ["value"]; pi_created := [] |}.
+Definition wit_vars1 := [("t", VCtx "tk"); ("s", VCtx "sk")].
+Definition wit_vars2 := [("s", VCtx "sk"); ("t", VCtx "tk")].
+Definition wit_a (vars : list (string * vspec)) : config :=
+  [{| n_proc := "FloatValueDataSource"; n_params := []; n_info := fvds; n_ctxkey := None;
+      n_sweep := Some {| sw_exprs := [("value", Bin Add (Var "t") (Var "s"))]; sw_vars := vars;
+                         sw_mode := "combinatorial"; sw_broadcast := false;
+                         sw_collection := Some "semantiva.examples.test_utils.FloatDataCollection" |} |}].
+
+Example wit_a_equiv : cfg_wf false (wit_a wit_vars1) = true /\ cfg_equiv (wit_a wit_vars1) (wit_a wit_vars2).
+Proof.
+  split; [reflexivity|]. constructor; [|constructor].
+  repeat split; try reflexivity.
+  - apply jeq_refl.
+  - exists [("value", Bin Add (Var "t") (Var "s"))]. split; [apply Permutation_refl|].
+    constructor; [|constructor]. split; [reflexivity|apply ac_refl].
+  - apply perm_swap.
+Qed.
+
+Theorem C04_ids_invariant_refuted_when : context_keys_sorted = false ->
+  exists c c', cfg_wf false c = true /\ cfg_equiv c c' /\
+    i_nodesem (spec_ids idh idh c) <> i_nodesem (spec_ids idh idh c') /\
+    i_cfgid (spec_ids idh idh c) <> i_cfgid (spec_ids idh idh c').
+Proof.
+  intros Hf. exists (wit_a wit_vars1), (wit_a wit_vars2).
+  destruct wit_a_equiv as [W E]. repeat split; auto.
+  - intro X. cbv delta [spec_ids i_nodesem node_sems node_sem_id node_sem_pre sweep_meta ctx_keys wit_a] in X.
+    rewrite Hf in X. vm_compute in X. discriminate X.
+  - intro X. cbv delta [spec_ids i_cfgid config_id config_pre config_struct pairs node_sems node_sem_id node_sem_pre
+                        sweep_meta ctx_keys wit_a] in X.
+    rewrite Hf in X. vm_compute in X. discriminate X.
+Qed.
+
+(* ---- (3) purity: whatever was built, inspected or run before (hist), the identities on the next
+   pipeline_start of any Pipeline object, and those printed by inspect, are Spec.ids of its configuration *)
+Theorem C04_ids_pure_full : enrich_on_copy = true ->
+  forall U5 H hist i c enr, nth_error (run_hist hist) i = Some (c, enr) ->
+  impl_run_ids U5 H hist i = Some (spec_ids U5 H c) /\ impl_inspect_ids U5 H hist c = spec_ids U5 H c.
+Proof. intros Hc U5 H hist i c enr Hn. split; [exact (ids_pure U5 H Hc hist i c enr Hn)|reflexivity]. Qed.
+
+Theorem C04_ids_pure_partial :
+  forall U5 H hist i c enr, has_sweep c = false -> nth_error (run_hist hist) i = Some (c, enr) ->
+  impl_run_ids U5 H hist i = Some (spec_ids U5 H c) /\ impl_inspect_ids U5 H hist c = spec_ids U5 H c.
+Proof. intros U5 H hist i c enr Hs Hn. split; [exact (ids_pure_partial U5 H hist i c enr Hs Hn)|reflexivity]. Qed.
+
+Definition wit_b : config :=
+  [{| n_proc := "FloatValueDataSource"; n_params := []; n_info := fvds; n_ctxkey := None;
+      n_sweep := Some {| sw_exprs := [("value", Var "t")];
+                         sw_vars := [("t", VSeq [JNum "1.0"; JNum "2.0"; JNum "3.0"])];
+                         sw_mode := "combinatorial"; sw_broadcast := false;
+                         sw_collection := Some "semantiva.examples.test_utils.FloatDataCollection" |} |}].
+
+Theorem C04_ids_pure_refuted_when : enrich_on_copy = false ->
+  exists hist i c, nth_error (run_hist hist) i = Some (c, true) /\
+    impl_run_ids idh idh hist i <> Some (spec_ids idh idh c).
+Proof.
+  intros Hf. exists [EBuild wit_b; ERun 0 true], 0%nat, wit_b. split.
+  - cbv delta [run_hist step]. rewrite Hf. reflexivity.
+  - intro X. cbv delta [impl_run_ids run_hist step] in X. rewrite Hf in X. vm_compute in X. discriminate X.
+Qed.
+
+(* ---- non-vacuity *)
+Example ex_equiv_nontrivial :
+  let c := wit_a wit_vars1 in let c' := wit_a wit_vars2 in c <> c' /\ cfg_equiv c c'.
+Proof. split; [discriminate|apply wit_a_equiv]. Qed.
+Example ex_strict_inhabited : cfg_wf true wit_b = true /\ has_sweep wit_b = true.
+Proof. split; reflexivity. Qed.
+Example ex_history : exists c enr, nth_error (run_hist [EInspect wit_b; EBuild wit_b; ERun 0 true; EBuild (wit_a wit_vars1)]) 1 = Some (c, enr).
+Proof. eexists; eexists; reflexivity. Qed.
+Example ex_jeq_nested :
+  jeq (JObj [("a", JObj [("x", JNum "1"); ("y", JNull)]); ("b", JArr [JObj [("p", JStr "s"); ("q", JBool true)]])])
+      (JObj [("b", JArr [JObj [("q", JBool true); ("p", JStr "s")]]); ("a", JObj [("y", JNull); ("x", JNum "1")])]).
+Proof.
+  eapply jeq_obj; [apply perm_swap|]. constructor.
+  - constructor. constructor; [|constructor]. eapply jeq_obj; [apply perm_swap|]. repeat constructor.
+  - constructor; [|constructor]. eapply jeq_obj; [apply perm_swap|]. repeat constructor.
+Qed.
+
 Print Assumptions C04_dumps_perm_invariant.
+Print Assumptions C04_ids_invariant_full.
+Print Assumptions C04_ids_invariant_partial.
+Print Assumptions C04_ids_invariant_refuted_when.
+Print Assumptions C04_ids_pure_full.
+Print Assumptions C04_ids_pure_partial.
+Print Assumptions C04_ids_pure_refuted_when.
